@@ -154,7 +154,7 @@ var (
 )
 
 func startWorker() (*worker, error) {
-	root, err := os.MkdirTemp("", "wsxw-")
+	root, err := ScratchDir("wsxw")
 	if err != nil {
 		return nil, err
 	}
